@@ -1,6 +1,86 @@
-/-! `pmodel rk`: line-protocol driver (stub — replaced by the owner of this model). -/
-namespace Driver.RK
+import PhreeqcVerif.Model.Util
+import PhreeqcVerif.Model.RK
+import PhreeqcVerif.Model.KinTime
+import PhreeqcVerif.Gen.RKTableau
+/-! `pmodel rk`: executes the Float instance of the rk_kinetics model and of Current_step on an op list.
 
-def run : IO Unit := IO.eprintln "pmodel rk: not implemented"
+ops:  curstep <incr 0|1> <reaction_step> <count> <equal 0|1> <n> <hex64>*n          -> C <hex64>
+      rk <hex t0> <hex kinTime> <hex stepDivide> <rk> <badStepMax> <n> (<hex m> <hex tol> <hex p1..p6>)*n
+         rate of reactant j:  ((((p1 + p2*t) + p3*t*t) + p4*M) + p5*M*t) + p6*M_other,  moles = rate * TIME
+         (M_other = amount of the next reactant, cyclically)                          -> S .. / M .. / E .. lines / "." -/
+namespace Driver.RK
+open PhreeqcVerif PhreeqcVerif.Util PhreeqcVerif.RK
+
+def floatParams : Params Float :=
+  let l (q : Rat) : Float := NumOps.lit q
+  { A := Gen.RKTableau.A.map (·.map l), c := Gen.RKTableau.c.map l, b := Gen.RKTableau.b.map l,
+    d := Gen.RKTableau.d.map l, e1 := Gen.RKTableau.e1.map l, e2 := Gen.RKTableau.e2.map l, e3 := Gen.RKTableau.e3.map l,
+    safety := l Gen.RKTableau.safety, molesMax := l Gen.RKTableau.molesMax, shrinkExp := l Gen.RKTableau.shrinkExp,
+    growExp := l Gen.RKTableau.growExp, growThreshold := l Gen.RKTableau.growThreshold,
+    growFactor := l Gen.RKTableau.growFactor, tinyM := l Gen.RKTableau.tinyM, minTotal := 1e-25, zero := 0.0, one := 1.0 }
+
+/-- the rate family of the correspondence runs (same association of operations as the BASIC program) -/
+def rateF (ps : List (List Float)) (t : Float) (m : List Float) (h : Float) : List Float :=
+  (List.range ps.length).map fun j =>
+    let p := ps.getD j []
+    let g (i : Nat) := p.getD i 0.0
+    let mj := m.getD j 0.0
+    let mo := m.getD ((j + 1) % ps.length) 0.0
+    let rate := g 0 + g 1 * t + g 2 * t * t + g 3 * mj + g 4 * mj * t + g 5 * mo
+    rate * h
+
+def statusStr : Status → String
+  | .done => "done" | .earlyExit => "exit" | .badSteps => "badsteps" | .fuel => "fuel"
+
+def hexs (l : List Float) : String := " ".intercalate (l.map hexOfFloat)
+
+def parseFloats (ws : List String) : Option (List Float) := ws.mapM floatOfHex
+
+def chunks (k : Nat) : Nat → List Float → List (List Float)
+  | 0, _ => []
+  | n + 1, l => l.take k :: chunks k n (l.drop k)
+
+def doRk (ws : List String) : List String :=
+  match ws with
+  | t0 :: kt :: sd :: rk :: bsm :: n :: rest =>
+    match floatOfHex t0, floatOfHex kt, floatOfHex sd, rk.toNat?, bsm.toNat?, n.toNat?, parseFloats rest with
+    | some t0, some kt, some sd, some rk, some bsm, some n, some vals =>
+      if vals.length != 8 * n then ["bad-op"] else
+      let cs := chunks 8 n vals
+      let m := cs.map (·.getD 0 0.0)
+      let tol := cs.map (·.getD 1 0.0)
+      let ps := cs.map (·.drop 2)
+      let (st, ct, ch) := rkKinetics floatParams Float.pow (rateF ps) t0 kt sd rk tol m bsm 100000
+      let head := s!"S {statusStr st} {ct.stepOk} {ct.stepBad} {ch.rk} {hexOfFloat ct.hSum}"
+      let ml := "M " ++ hexs ch.m
+      let hl := "A " ++ hexs ct.accH.reverse
+      let ev := ch.log.reverse.map fun e =>
+        s!"E {hexOfFloat e.t} {hexOfFloat e.h} {hexs e.m} | {hexs e.moles}"
+      [head, ml, hl] ++ ev ++ ["."]
+    | _, _, _, _, _, _, _ => ["bad-op"]
+  | _ => ["bad-op"]
+
+def doCurstep (ws : List String) : List String :=
+  match ws with
+  | incr :: rs :: count :: eq :: n :: rest =>
+    match rs.toNat?, count.toNat?, n.toNat?, parseFloats rest with
+    | some rs, some count, some n, some steps =>
+      if steps.length != n then ["bad-op"] else
+      let v := KinTime.currentStep (α := Float) Float.ofNat steps count (eq == "1") (incr == "1") rs
+      [s!"C {hexOfFloat v}"]
+    | _, _, _, _ => ["bad-op"]
+  | _ => ["bad-op"]
+
+def run : IO Unit := do
+  let stdin ← IO.getStdin
+  let lines ← readLines stdin
+  let out ← IO.getStdout
+  for line in lines do
+    let res := match words line with
+      | "rk" :: ws => doRk ws
+      | "curstep" :: ws => doCurstep ws
+      | [] => []
+      | _ => ["bad-op"]
+    for r in res do out.putStrLn r
 
 end Driver.RK
